@@ -33,7 +33,7 @@ class Exchange(MixIn):
                  name=None,
                  device=None,
                  timeout=None,
-                 redoTimout=None,
+                 redoTimeout=None,
                  tx=None,
                  rx=None):
         """
@@ -85,7 +85,7 @@ class Exchange(MixIn):
         self.device = device
         self.timeout = timeout if timeout is not None else self.Timeout
         self.timer = StoreTimer(stack.stamper, duration=self.timeout)
-        self.redoTimeout = redoTimeout if redoTimout is not None else self.RedoTimeout
+        self.redoTimeout = redoTimeout if redoTimeout is not None else self.RedoTimeout
         self.redoTimer = StoreTimer(stack.stamper, duration=self.redoTimeout)
         self.rx = rx  # latest received
         self.tx = tx  # initial to transmit
